@@ -197,9 +197,11 @@ def check(case):
                 # limits are given in unscaled coordinates of the option and applied after scaling:
                 # the program tapers the scaled wire with the limits as given
                 lo = max(2.5 * r, o.get('tmin') or 0.0)
-                if lens.min() < lo * (1 - 1e-6):
+                # coordinates far from the origin carry a rounding error of a few ulps of the coordinate
+                ulp = 8 * np.finfo(float).eps * span
+                if lens.min() < lo * (1 - 1e-6) - ulp:
                     fails.append(('taper:below-min', 'shortest segment %g < max(2.5 r, min) = %g' % (lens.min(), lo)))
-                if tmax is not None and lens.max() > tmax * (1 + 1e-6):
+                if tmax is not None and lens.max() > tmax * (1 + 1e-6) + ulp:
                     fails.append(('taper:above-max', 'longest segment %g > max %g' % (lens.max(), tmax)))
                 tp = o['taper']
                 seq = lens if tp == 1 else lens[::-1]
